@@ -169,19 +169,18 @@ func (r *Router) handleHTTPRequest(ctx *Context) {
 		// would write into the backing array shared with concurrent requests.
 		handlers = combineHandlers(route.handlers, HandlersChain{route.handler})
 	} else if len(allowed) > 0 { // method not allowed
-		if len(r.noAllowed) == 0 {
-			r.noAllowed = HandlersChain{internal405Handler}
-		}
-
 		// add allowed methods to context
 		ctx.Set(CTXAllowedMethods, allowed)
+		// Notice: don't assign the default to r.noAllowed here, requests must not write router fields.
 		handlers = r.noAllowed
-	} else { // not found route
-		if len(r.noRoute) == 0 {
-			r.noRoute = HandlersChain{internal404Handler}
+		if len(handlers) == 0 {
+			handlers = HandlersChain{internal405Handler}
 		}
-
+	} else { // not found route
 		handlers = r.noRoute
+		if len(handlers) == 0 {
+			handlers = HandlersChain{internal404Handler}
+		}
 	}
 
 	// has global middleware handlers
